@@ -10,14 +10,30 @@ line, the names bound there solely by an import of a module, and every attribute
 (LEGB) is NOT done here: it is the Lean function ``Psi.Scope.resolve`` (proved sound and
 complete w.r.t. the declarative ``BoundAt`` in PsiProofs/C19.lean).  harness/c19.py validates
 the tables + ``resolve`` against CPython's ``symtable`` on every run.
+
+Refinements of the purely syntactic table (hardening pass; each has corpus entries in harness/c19.py):
+* a module-level name whose last top-level statement is an unconditional ``del name``, or that is only ever bound by
+  ``except … as name``, is not a module global (reads of it while the module body runs are dropped as flow-dependent);
+* ``globals()['name'] = …`` binds a module global; names no statement binds but which a pristine interpreter finds in
+  the imported module (``exec``, ``globals().update``) count as bound (``resolve_dynamic``) — outside the claim;
+* ``try: import x`` / ``except ImportError: x = <constant>`` leaves ``x`` a module import (where the import works);
+* ``from m import *`` binds ``m.__all__`` (each entry is checked like ``from m import entry``) or the public names;
+* ``import pkg.sub`` / ``from pkg.sub import x`` with pkg the package under test: ``sub`` must exist in ``pkg``;
+* which sub-modules of an INSTALLED package are attributes of it is asked of a pristine interpreter (``conditional``):
+  ``dir()`` in this process is polluted by everything the harness imported (``logging.handlers``, ``xml.dom``);
+* source modules defining a module-level ``__getattr__`` (PEP 562) answer for their virtual attributes at run time;
+* PEP 695 type-parameter scopes / type aliases (lazily evaluated parts are not reads);
+* sub-directories without ``__init__.py`` (namespace packages) are walked too.
 """
 import ast
 import builtins
 import importlib
 import json
 import os
+import subprocess
 import sys
 import types
+import warnings
 
 from . import common as C
 
@@ -25,6 +41,9 @@ PKG = 'psiaudio'
 OUT = os.path.join(C.LEAN, 'PsiGen', 'Names.lean')
 
 KINDS = ['module', 'function', 'lambda', 'comprehension', 'class']
+# PEP 695 annotation scopes (symtable: 'type parameter' / 'TypeVar bound' / 'type alias' blocks): function-like for
+# name resolution, except that directly inside a class body they also see the class namespace
+ANNOTATION_KINDS = ('typeparams', 'typevarbound', 'typealias')
 MODULE_IMPLICIT = ['__name__', '__doc__', '__package__', '__loader__', '__spec__', '__file__',
                    '__cached__', '__builtins__', '__annotations__']
 CLASS_IMPLICIT = ['__module__', '__qualname__']
@@ -50,9 +69,13 @@ class Scope:
         self.children = []
         self.cells = ['__class__'] if kind == 'class' else []
         self.walrus = set()
+        self.sees_class = False    # annotation scope directly inside a class body
+        self.stamp = -1        # module scope only: index of the top-level statement being walked
+        self.last = {}         # name -> stamp of the last statement that (re)binds or deletes it
 
     def bind(self, name, binder=('other',)):
         self.bound.setdefault(name, []).append(binder)
+        self.last[name] = self.stamp
 
     def bound_names(self):
         """Names local to this scope (declared global/nonlocal ones are not)."""
@@ -70,14 +93,21 @@ class Walker(ast.NodeVisitor):
         self.scopes = []
         self.class_stack = []
         self.from_imports = []   # (scope idx, absolute module, attr, line)
+        self.dotted_imports = []  # `import a.b.c` -> (scope idx, 'a', 'b', line), (scope idx, 'a.b', 'c', line)
+        self.star_bound = set()  # names bound by `from m import *`
+        self.dynamic_bound = set()   # names bound by `globals()['name'] = ...`
+        self.mod_del = {}        # name -> index of the top-level statement `del name` (module body only)
+        self.tree = tree
         self.future_annotations = any(
             isinstance(s, ast.ImportFrom) and s.module == '__future__'
             and any(a.name == 'annotations' for a in s.names) for s in tree.body)
         self.cur = self._new('module', 'top', None, 0)
         for n in MODULE_IMPLICIT + (['__path__'] if is_pkg else []):
             self._bind(n)
-        for s in tree.body:
+        for i, s in enumerate(tree.body):
+            self.scopes[0].stamp = i
             self.visit(s)
+        self.scopes[0].stamp = len(tree.body)
 
     # ---- scope plumbing ----------------------------------------------------
     def _new(self, kind, name, parent, lineno):
@@ -85,6 +115,8 @@ class Walker(ast.NodeVisitor):
             q = ''
         else:
             p = self.scopes[parent]
+            while p.kind in ANNOTATION_KINDS:       # annotation scopes do not take part in qualified names
+                p = self.scopes[p.parent]
             qn = f'<{name}>' if kind in ('lambda', 'comprehension') else name
             q = qn if p.kind == 'module' else (
                 p.qualname + ('.' if p.kind == 'class' else '.<locals>.') + qn)
@@ -133,8 +165,7 @@ class Walker(ast.NodeVisitor):
         self._visit_all(a.defaults)
         self._visit_all(a.kw_defaults)
         self._visit_all(node.decorator_list)
-        if getattr(node, 'type_params', None):
-            raise Unsupported(f'{self.modname}:{node.lineno}: PEP 695 type parameters')
+        outer = self._type_params(node, node.name) if getattr(node, 'type_params', None) else None
         if not self.future_annotations:
             for arg in a.posonlyargs + a.args:
                 self._visit_all([arg.annotation])
@@ -149,6 +180,37 @@ class Walker(ast.NodeVisitor):
         self._params(a)
         self._visit_all(node.body)
         self.cur = old
+        if outer is not None:
+            self.cur = outer
+
+    def _lazy(self, expr):
+        """Visit a lazily evaluated expression (TypeVar bound, type-alias value): its names are recorded for the
+        symtable comparison but are not reads any code path performs."""
+        mark, cmark = len(self.cur.loads), len(self.cur.chains)
+        self.visit(expr)
+        self.cur.loads[mark:] = [(n, l, False) for n, l, _ in self.cur.loads[mark:]]
+        del self.cur.chains[cmark:]
+
+    def _annotation_scope(self, kind, name, lineno):
+        old = self._enter(kind, name, lineno)
+        p = old
+        while p.kind in ANNOTATION_KINDS:
+            p = self.scopes[p.parent]
+        self.cur.sees_class = p.kind == 'class'
+        return old
+
+    def _type_params(self, node, name):
+        """PEP 695 `def f[T: B, *Ts, **P]` / `class C[T]` / `type A[T] = …`: enter the scope holding the parameters."""
+        outer = self._annotation_scope('typeparams', name, node.lineno)
+        for tp in node.type_params:
+            if getattr(tp, 'default_value', None) is not None:
+                raise Unsupported(f'{self.modname}:{node.lineno}: PEP 696 type parameter default')
+            self._bind(tp.name)
+            if getattr(tp, 'bound', None) is not None:
+                o = self._annotation_scope('typevarbound', tp.name, tp.lineno)
+                self._lazy(tp.bound)
+                self.cur = o
+        return outer
 
     visit_FunctionDef = _function
     visit_AsyncFunctionDef = _function
@@ -173,20 +235,27 @@ class Walker(ast.NodeVisitor):
     def visit_ClassDef(self, node):
         self._bind(node.name)
         self._visit_all(node.decorator_list)
-        if getattr(node, 'type_params', None):
-            raise Unsupported(f'{self.modname}:{node.lineno}: PEP 695 type parameters')
-        self._visit_all(node.bases)
+        outer = self._type_params(node, node.name) if getattr(node, 'type_params', None) else None
+        self._visit_all(node.bases)          # (inside the type-parameter scope of a generic class)
         self._visit_all(node.keywords)
         old = self._enter('class', node.name, node.lineno)
         self.class_stack.append(node.name)
-        for n in CLASS_IMPLICIT:
+        for n in CLASS_IMPLICIT + (['__type_params__'] if outer is not None else []):
             self._bind(n)
         self._visit_all(node.body)
         self.class_stack.pop()
         self.cur = old
+        if outer is not None:
+            self.cur = outer
 
     def visit_TypeAlias(self, node):
-        raise Unsupported(f'{self.modname}:{node.lineno}: PEP 695 type alias')
+        self.visit(node.name)
+        outer = self._type_params(node, node.name.id) if node.type_params else None
+        old = self._annotation_scope('typealias', node.name.id, node.lineno)
+        self._lazy(node.value)               # evaluated only when `.__value__` is asked for
+        self.cur = old
+        if outer is not None:
+            self.cur = outer
 
     def _comprehension(self, node, name, elts):
         g0 = node.generators[0]
@@ -242,6 +311,9 @@ class Walker(ast.NodeVisitor):
             else:
                 top = a.name.split('.')[0]
                 self._bind(top, ('import', ('mod', top, a.name)))
+            parts = a.name.split('.')
+            for i in range(1, len(parts)):
+                self.dotted_imports.append((self.cur.idx, '.'.join(parts[:i]), parts[i], node.lineno))
 
     def visit_ImportFrom(self, node):
         if node.module == '__future__':
@@ -254,8 +326,12 @@ class Walker(ast.NodeVisitor):
             if a.name == '*':
                 self.has_star = True
                 if self.resolve_star:
-                    for n in star_names(absmod):
-                        self._bind(n)
+                    names, listed = star_names(absmod)
+                    for n in names:
+                        self._bind(n, ('import', ('from', absmod, n)))
+                        self.star_bound.add(n)
+                        if listed:      # an `__all__` entry that does not exist makes the star-import itself fail
+                            self.from_imports.append((self.cur.idx, absmod, n, node.lineno))
                 continue
             self._bind(a.asname or a.name, ('import', ('from', absmod, a.name)))
             self.from_imports.append((self.cur.idx, absmod, a.name, node.lineno))
@@ -284,7 +360,15 @@ class Walker(ast.NodeVisitor):
         # symtable.c order: body, orelse, handlers, finalbody
         self._visit_all(node.body)
         self._visit_all(node.orelse)
+        # `try: import x` / `except ImportError: x = None`: where the import succeeds (the installed versions) the
+        # name denotes the module, so the constant fallback does not take the name out of the attribute claim
+        imported = set()
+        for st in node.body:
+            if isinstance(st, (ast.Import, ast.ImportFrom)):
+                imported.update(self._mangle(a.asname or a.name.split('.')[0]) for a in st.names)
+        old, self.fallback_names = getattr(self, 'fallback_names', set()), imported
         self._visit_all(node.handlers)
+        self.fallback_names = old
         self._visit_all(node.finalbody)
 
     visit_Try = _try
@@ -293,8 +377,32 @@ class Walker(ast.NodeVisitor):
     def visit_ExceptHandler(self, node):
         self._visit_all([node.type])
         if node.name:
-            self._bind(node.name)
-        self._visit_all(node.body)
+            self._bind(node.name, ('except',))      # unbound again when the handler is left
+        for st in node.body:
+            if (isinstance(st, ast.Assign) and len(st.targets) == 1 and isinstance(st.targets[0], ast.Name)
+                    and isinstance(st.value, ast.Constant)
+                    and self._mangle(st.targets[0].id) in getattr(self, 'fallback_names', ())):
+                self._bind(st.targets[0].id, ('fallback',))
+            else:
+                self.visit(st)
+
+    def visit_Delete(self, node):
+        if self.cur.idx == 0 and any(node is st for st in self.tree.body):
+            for t in node.targets:
+                for e in (t.elts if isinstance(t, (ast.Tuple, ast.List)) else [t]):
+                    if isinstance(e, ast.Name):
+                        self.mod_del[self._mangle(e.id)] = self.scopes[0].stamp
+        self.generic_visit(node)
+
+    def visit_Subscript(self, node):
+        # `globals()['name'] = value` binds a module global (flow-insensitively, like `global name; name = value`)
+        v, k = node.value, node.slice
+        if (isinstance(node.ctx, ast.Store) and isinstance(v, ast.Call) and isinstance(v.func, ast.Name)
+                and v.func.id == 'globals' and not v.args and not v.keywords
+                and isinstance(k, ast.Constant) and isinstance(k.value, str)):
+            self.scopes[0].bind(k.value, ('dynamic',))
+            self.dynamic_bound.add(k.value)
+        self.generic_visit(node)
 
     def visit_MatchAs(self, node):
         self._visit_all([node.pattern])
@@ -336,8 +444,14 @@ class Walker(ast.NodeVisitor):
 
 
 def star_names(absmod):
-    m = importlib.import_module(absmod)
-    return list(getattr(m, '__all__', [n for n in dir(m) if not n.startswith('_')]))
+    """(names bound by `from absmod import *`, whether they come from an `__all__`)."""
+    try:
+        m = importlib.import_module(absmod)
+    except Exception:
+        return [], False        # not importable here: nothing is bound (reads of such names are then reported)
+    if hasattr(m, '__all__'):
+        return [n for n in m.__all__ if isinstance(n, str)], True
+    return [n for n in dir(m) if not n.startswith('_')], False
 
 
 # --------------------------------------------------------------------------
@@ -355,6 +469,7 @@ class SourceModule:
         self.has_star = w.has_star
         self.scopes = w.scopes
         self.from_imports = w.from_imports
+        self.dotted_imports = w.dotted_imports
         # names assigned under a `global` declaration in some function are module globals once that
         # function has run (flow-insensitive, like locals): count them as bound at module level
         self.global_assigned = set()
@@ -363,17 +478,48 @@ class SourceModule:
                 if n in s.bound:
                     self.global_assigned.add(n)
                     self.scopes[0].bind(n)
+        self.star_bound = w.star_bound
+        self.dynamic_bound = set(w.dynamic_bound)
+        # Module-level names that are certainly NOT bound once the module body has run: the last top-level statement
+        # touching the name is an unconditional `del name`, or the name is only ever bound as `except … as name`
+        # (unbound again when the handler is left).  Functions reading such a name fail with NameError on every call.
+        g = self.scopes[0]
+        self.module_unbound = set()
+        for n, binders in g.bound.items():
+            if n in self.global_assigned or n in g.globals:
+                continue
+            if w.mod_del.get(n, -2) == g.last.get(n) or all(b == ('except',) for b in binders):
+                self.module_unbound.add(n)
+
+    def module_names(self):
+        """Names bound at module level after the module body has run."""
+        return [n for n in self.scopes[0].bound_names() if n not in self.module_unbound]
+
+    def import_time(self, s):
+        """Does scope s run while the module body runs (module, class bodies and comprehensions directly in them)?
+        Reads there of a name deleted later at module level are flow-dependent, i.e. outside the claim."""
+        while s.kind in ('class', 'comprehension') + ANNOTATION_KINDS:
+            s = self.scopes[s.parent]
+        return s.kind == 'module'
+
+    def add_dynamic(self, names):
+        """Names found in the module namespace of a fresh interpreter although no statement binds them
+        (`exec`, `globals().update(...)`, `setattr(sys.modules[__name__], ...)`): outside the claim, count as bound."""
+        for n in names:
+            self.scopes[0].bind(n, ('dynamic',))
+            self.dynamic_bound.add(n)
+            self.module_unbound.discard(n)
 
 
 def discover(repo):
     root = os.path.join(repo, PKG)
     mods = []
     for dirpath, dirs, files in os.walk(root):
-        dirs[:] = sorted(d for d in dirs if d != '__pycache__' and
-                         os.path.exists(os.path.join(dirpath, d, '__init__.py')))
+        # sub-directories without __init__.py are importable too (namespace packages): their modules are package code
+        dirs[:] = sorted(d for d in dirs if d != '__pycache__' and d.isidentifier())
         rel = os.path.relpath(dirpath, os.path.dirname(root)).replace(os.sep, '.')
         for f in sorted(files):
-            if f.endswith('.py'):
+            if f.endswith('.py') and (f[:-3].isidentifier() or f == '__init__.py'):
                 p = os.path.join(dirpath, f)
                 if f == '__init__.py':
                     mods.append((rel, p, True))
@@ -385,12 +531,21 @@ def discover(repo):
 class Package:
     """Scope tables of all source modules + module objects referenced by attribute chains."""
 
-    def __init__(self, sources, with_imports=True):
+    def __init__(self, sources, with_imports=True, sys_path=None, memo_from=None):
         """sources: list of SourceModule.  with_imports=False: scope tables only (no module is
-        imported, no chains) — used for the translator-validation corpora."""
+        imported, no chains) — used for the translator-validation corpora.  sys_path: where a fresh interpreter
+        finds the source modules (default: the repository under test)."""
         self.with_imports = with_imports
         self.mods = sources
         self.by_name = {m.name: m for m in sources}
+        self.roots = {m.name.split('.')[0] for m in sources}
+        self.sys_path = list(sys_path) if sys_path else [C.REPO]
+        self._cond_memo = memo_from._cond_memo if memo_from else {}
+        self._fresh_ref_memo = memo_from._fresh_ref_memo if memo_from else {}
+        self._absent = {}          # per-referencing-module dyn key -> submodule attributes not loaded for that module
+        self.fresh_runs = 0
+        self.chain_attrs = set()   # attribute names stepped through by chains off import names (filled below)
+        self.chain_attrs_of = {}   # the same per source module
         self.modobjs = []          # list of dict(key, attrs:set, submods:dict attr->idx)
         self.modobj_idx = {}       # key -> idx
         self._import_memo = {}
@@ -402,7 +557,7 @@ class Package:
         for m in self.mods:
             for s in m.scopes:
                 tab = {}
-                for n in (s.bound_names() if with_imports else []):
+                for n in ((m.module_names() if s.idx == 0 else s.bound_names()) if with_imports else []):
                     k = self.module_bound_to(m, s, n)
                     if k is not None:
                         tab[n] = k
@@ -415,6 +570,12 @@ class Package:
                 import_names.update(self.imports[(m.name, s.idx)])
             for s in m.scopes:
                 self.chains[(m.name, s.idx)] = [c for c in s.chains if c[0] in import_names]
+                used = {a for c in self.chains[(m.name, s.idx)] for a in c[1]}
+                self.chain_attrs.update(used)
+                self.chain_attrs_of.setdefault(m.name, set()).update(used)
+        if with_imports:
+            self.prefetch_conditional(sorted({k for tab in self.imports.values() for k in tab.values()
+                                              if k[0] == 'dyn' and len(k) == 2}))
         self.import_idx = {}
         for m in self.mods:
             for s in m.scopes:
@@ -433,11 +594,105 @@ class Package:
             for sidx, absmod, attr, line in (m.from_imports if with_imports else []):
                 k = self.module_key(absmod)
                 if k is None:
-                    continue       # module not importable here: optional dependency, outside the claim
+                    # module not importable here: an optional dependency is outside the claim, but a module of the
+                    # package under test that does not exist is a missing attribute (sub-module) of its parent package
+                    self._internal_module_check(absmod, line, out)
+                    continue
                 i = self.intern_modobj(k)
                 self.walk_chain(i, [attr])
                 out.append((i, attr, line))
+            for sidx, parent, leaf, line in (m.dotted_imports if with_imports else []):
+                self._internal_module_check(parent + '.' + leaf, line, out)
             self.from_checks[m.name] = out
+
+    def _internal_module_check(self, absmod, line, out):
+        """`import pkg.sub` / `from pkg.sub import x` with pkg the package under test: `sub` must exist in `pkg`."""
+        if '.' not in absmod or absmod.split('.')[0] not in self.roots:
+            return
+        parent, leaf = absmod.rsplit('.', 1)
+        pk = self.module_key(parent)
+        if pk is None:
+            return self._internal_module_check(parent, line, out)
+        try:
+            # a module that exists but fails to import for another reason (or is provided by an import hook, like the
+            # generated psiaudio/version.py of an editable install) is not a missing module
+            import importlib.util
+            if importlib.util.find_spec(absmod) is not None:
+                return
+        except ModuleNotFoundError:
+            pass
+        except Exception:
+            return
+        i = self.intern_modobj(pk)
+        self.walk_chain(i, [leaf])
+        if (i, leaf, line) not in out:
+            out.append((i, leaf, line))
+
+    # ---- fresh interpreter: which sub-modules of an installed package are attributes of it? -----------
+    def _fresh(self, lines):
+        """Run `lines` in a pristine interpreter; the last stdout line is JSON (None on any failure)."""
+        self.fresh_runs += 1
+        env = dict(os.environ, PYTHONPATH=os.pathsep.join(self.sys_path))
+        try:
+            r = subprocess.run([sys.executable, '-c', '\n'.join(lines)], capture_output=True, text=True,
+                               env=env, cwd=self.sys_path[0], timeout=120)
+            return json.loads(r.stdout.strip().splitlines()[-1]) if r.returncode == 0 else None
+        except Exception:
+            return None
+
+    def _genuine_submodule(self, obj, a):
+        try:
+            with warnings.catch_warnings():
+                warnings.simplefilter('ignore')
+                v = getattr(obj, a)
+        except Exception:
+            return False
+        return (isinstance(v, types.ModuleType) and hasattr(obj, '__path__')
+                and getattr(v, '__name__', None) == obj.__name__ + '.' + a)
+
+    def conditional(self, key):
+        """Sub-modules of installed package `key` that some chain of the sources steps through and that are NOT
+        attributes of the package after `import package` alone in a pristine interpreter (`logging.handlers`,
+        `matplotlib.pyplot`, `xml.dom`): whether `package.sub` works then depends on who imported what.  The
+        attribute set seen in this process (`dir()`) is polluted by everything the harness has imported."""
+        if key[1] not in self._cond_memo:
+            self.prefetch_conditional([key])
+        return self._cond_memo[key[1]]
+
+    def prefetch_conditional(self, keys):
+        """`conditional` for several packages at once (the pristine interpreters run concurrently)."""
+        jobs = []
+        for key in keys:
+            if key[1] in self._cond_memo:
+                continue
+            obj = self.dyn(key)
+            cands = sorted(a for a in self.chain_attrs if self._genuine_submodule(obj, a)) \
+                if hasattr(obj, '__path__') else []
+            self._cond_memo[key[1]] = set()
+            if cands:
+                jobs.append((key[1], cands, ['import importlib, json',
+                                             f'P = importlib.import_module({obj.__name__!r})',
+                                             f'c = {cands!r}',
+                                             'have = [a for a in c if a in vars(P)]',
+                                             'have += [a for a in c if a not in have and hasattr(P, a)]   # lazy',
+                                             'print(json.dumps(have))']))
+        if jobs:
+            from concurrent.futures import ThreadPoolExecutor
+            with ThreadPoolExecutor(max_workers=8) as ex:
+                for (name, cands, _), got in zip(jobs, ex.map(self._fresh, [j[2] for j in jobs])):
+                    if got is not None:
+                        self._cond_memo[name] = set(cands) - set(got)
+
+    def _fresh_ref_has(self, refmod, obj, attrs):
+        """Which of `attrs` are attributes of module `obj` in a pristine interpreter that imported only refmod."""
+        k = (refmod, obj.__name__)
+        if k not in self._fresh_ref_memo:
+            got = self._fresh(['import importlib, json',
+                               f'importlib.import_module({refmod!r})',
+                               f'P = importlib.import_module({obj.__name__!r})',
+                               f'print(json.dumps([a for a in {sorted(attrs)!r} if hasattr(P, a)]))'])
+            self._fresh_ref_memo[k] = set(attrs) if got is None else set(got)
+        return self._fresh_ref_memo[k]
 
     # ---- which submodules are loaded when a module of the package has been imported? -------------
     def _imported_by(self, m, scopes):
@@ -491,6 +746,8 @@ class Package:
         it depends on what has been imported by then."""
         if k is not None and k[0] == 'src' and len(k) == 2 and self.by_name[k[1]].is_pkg:
             return ('src', k[1], refmod)
+        if k is not None and k[0] == 'dyn' and len(k) == 2 and self.with_imports and self.conditional(k):
+            return ('dyn', k[1], refmod)
         return k
 
     # ---- which module object does a name denote? ---------------------------
@@ -524,10 +781,10 @@ class Package:
         """If attribute `attr` of module `key` is itself a module, its key; else None."""
         if key[0] == 'src':
             m = self.by_name[key[1]]
-            if attr in m.scopes[0].bound:
-                if (key, attr) in _seen:
-                    return None
-                return self.module_bound_to(m, m.scopes[0], attr, _seen + ((key, attr),))
+            # (`from . import sub` inside the package's own __init__ refers back to this very attribute: the second
+            # time round it denotes the sub-module itself)
+            if attr in m.scopes[0].bound and attr not in m.module_unbound and (key[:2], attr) not in _seen:
+                return self.module_bound_to(m, m.scopes[0], attr, _seen + ((key[:2], attr),))
             if m.is_pkg:
                 sk = self.module_key(key[1] + '.' + attr)      # submodule (source file or installed)
                 return self._ref_key(sk, key[2]) if len(key) > 2 else sk
@@ -539,7 +796,10 @@ class Package:
             if hasattr(obj, '__path__'):
                 return self.module_key(obj.__name__ + '.' + attr)   # `from pkg import submodule`
             return None
-        return self._dyn_key(v) if isinstance(v, types.ModuleType) else None
+        if not isinstance(v, types.ModuleType):
+            return None
+        sk = self._dyn_key(v)
+        return self._ref_key(sk, key[2]) if len(key) > 2 else sk
 
     def module_bound_to(self, m, s, name, _seen=()):
         """Module key when `name` is bound in scope s of module m solely by imports of one module."""
@@ -548,6 +808,8 @@ class Package:
             return None
         keys = set()
         for b in binders:
+            if b[0] == 'fallback':
+                continue
             if b[0] != 'import':
                 return None
             spec = b[1]
@@ -571,7 +833,7 @@ class Package:
         self.modobj_idx[key] = i
         if key[0] == 'src':
             m = self.by_name[key[1]]
-            attrs = set(m.scopes[0].bound_names())
+            attrs = set(m.module_names())
             if m.is_pkg:
                 d = os.path.dirname(m.path)
                 # a submodule is an attribute of the package object only once it has been imported: when the
@@ -583,7 +845,18 @@ class Package:
                     if sub and (loaded is None or f'{key[1]}.{sub}' in loaded):
                         attrs.add(sub)
         else:
-            attrs = set(dir(self.dyn(key)))
+            obj = self.dyn(key)
+            attrs = set(dir(obj))
+            if len(key) > 2:
+                # reached through a name of module key[2]: a conditional sub-module counts only when that module (or
+                # what it imports at module level) imports it, statically or in a pristine interpreter
+                cond = self.conditional(key)
+                loaded = self.loaded_by(key[2])
+                need = {a for a in cond if f'{obj.__name__}.{a}' not in loaded
+                        and a in self.chain_attrs_of.get(key[2], ())}      # (only what that module steps through)
+                absent = need - self._fresh_ref_has(key[2], obj, need) if need else set()
+                self._absent[key] = absent
+                attrs -= absent
         self.modobjs.append({'key': key, 'attrs': attrs, 'submods': {}})
         return i
 
@@ -594,9 +867,15 @@ class Package:
         mo = self.modobjs[i]
         a = path[0]
         key = mo['key']
-        if key[0] == 'dyn' and a not in mo['attrs']:
+        if key[0] == 'dyn' and a not in mo['attrs'] and a not in self._absent.get(key, ()):
             try:
                 if hasattr(self.dyn(key), a):        # lazily loaded submodule / module __getattr__
+                    mo['attrs'].add(a)
+            except Exception:
+                pass
+        if key[0] == 'src' and a not in mo['attrs'] and '__getattr__' in self.by_name[key[1]].module_names():
+            try:                                     # source module with a module-level __getattr__ (PEP 562)
+                if hasattr(importlib.import_module(key[1]), a):
                     mo['attrs'].add(a)
             except Exception:
                 pass
@@ -624,24 +903,39 @@ class Package:
         modules = []
         for m in self.mods:
             scopes = []
+            # an annotation scope directly inside a class body sees the class namespace: what it reads without binding
+            # it itself resolves exactly as if the class body read it
+            moved = {}
+            for s in m.scopes:
+                if s.kind in ANNOTATION_KINDS and s.sees_class:
+                    c = m.scopes[s.parent]
+                    while c.kind in ANNOTATION_KINDS:
+                        c = m.scopes[c.parent]
+                    moved.setdefault(c.idx, []).append(s)
             for s in m.scopes:
                 loads = {}
-                for n, line, ev in s.loads:
-                    if ev:
+                skip = m.module_unbound if m.import_time(s) else ()
+                own = [(n, line, ev) for n, line, ev in s.loads
+                       if not (s.kind in ANNOTATION_KINDS and s.sees_class and n not in s.bound)]
+                for t in moved.get(s.idx, []):
+                    own += [(n, line, ev) for n, line, ev in t.loads if n not in t.bound]
+                for n, line, ev in own:
+                    if ev and n not in skip:
                         loads.setdefault(n, line)
                 o = s
-                while o.kind in ('lambda', 'comprehension'):
+                while o.kind in ('lambda', 'comprehension') + ANNOTATION_KINDS:
                     o = m.scopes[o.parent]
                 scopes.append({
-                    'kind': s.kind, 'parent': s.parent, 'qualname': s.qualname, 'lineno': s.lineno,
+                    'kind': 'function' if s.kind in ANNOTATION_KINDS else s.kind, 'parent': s.parent, 'qualname': s.qualname, 'lineno': s.lineno,
                     'owner': o.qualname,       # nearest enclosing def/class ('' = module body)
-                    'bound': [I(n) for n in s.bound_names()],
+                    'bound': [I(n) for n in (m.module_names() if s.idx == 0 else s.bound_names())],
                     'globals': [I(n) for n in sorted(s.globals)],
                     'nonlocals': [I(n) for n in sorted(s.nonlocals)],
                     'cells': [I(n) for n in s.cells],
                     'imports': [(I(n), k) for n, k in self.import_idx[(m.name, s.idx)].items()],
                     'loads': [(I(n), line) for n, line in sorted(loads.items(), key=lambda t: (t[1], t[0]))],
-                    'all_lines': {n: sorted({l for nn, l, ev in s.loads if nn == n and ev}) for n in loads},
+                    'all_lines': {n: sorted({l for nn, l, ev in own if nn == n and ev}) for n in loads},
+                    'moved_in': {n: t.idx for t in moved.get(s.idx, []) for n, _, _ in t.loads if n not in t.bound},
                     'chains': [(I(b), [I(a) for a in p], line) for b, p, line in
                                sorted(set((b, tuple(p), l) for b, p, l in self.chains[(m.name, s.idx)]),
                                       key=lambda t: (t[2], t[0], t[1]))],
@@ -659,9 +953,37 @@ class Package:
         return {'names': table, 'builtins': bi, 'modobjs': modobjs, 'modules': modules}
 
 
-def load_package(repo=None):
+def resolve_dynamic(pkg):
+    """Module-level names no statement binds but which exist in the module's namespace once it has been imported in a
+    pristine interpreter (`exec`, `globals().update`, `setattr(sys.modules[__name__], …)`) are outside the claim:
+    count them as bound.  Returns {module: names}; only modules with statically unresolved globals cost anything."""
+    from . import c19
+    data = pkg.build()
+    want = {}
+    for mi, si, n, _line in c19.py_failing_loads(data):
+        m = data['modules'][mi]
+        if not c19.known_id(m['name'], m['scopes'][si]['owner'] or '<module>', data['names'][n]):
+            want.setdefault(m['name'], set()).add(data['names'][n])      # (a recorded finding is confirmed already)
+    found = {}
+    for mod, names in sorted(want.items()):
+        got = pkg._fresh(['import importlib, json', f'm = importlib.import_module({mod!r})',
+                          f'print(json.dumps([n for n in {sorted(names)!r} if n in vars(m)]))'])
+        if got:
+            pkg.by_name[mod].add_dynamic(got)
+            found[mod] = sorted(got)
+    return found
+
+
+def load_package(repo=None, sources=None, sys_path=None):
     repo = repo or C.REPO
-    return Package([SourceModule(n, p, k) for n, p, k in discover(repo)])
+    if sources is None:
+        sources = [SourceModule(n, p, k) for n, p, k in discover(repo)]
+    pkg = Package(sources, sys_path=sys_path)
+    dyn = resolve_dynamic(pkg)
+    if dyn:
+        old, pkg = pkg, Package(sources, sys_path=sys_path, memo_from=pkg)
+    pkg.dynamic_names = dyn
+    return pkg
 
 
 # --------------------------------------------------------------------------
